@@ -5,6 +5,8 @@ CONSTANTS
   SpecSet = {"s2"}
   SizeSet = {"dyn"}
   TermSet = {1}
+  KindSet = {"path", "pil", "url"}
+  PeerVars = {}
   FaultSteps = {"open", "step"}
 VIEW DumpView
 CONSTRAINT Bound
